@@ -162,6 +162,33 @@ def run_nlc(case, ctx):
                               "cloned" % (i, j, cw[i, j], cn[i, j]), cfg=cfg)
         except Exception as e:
             ctx.violation(K + "raised/%s/%s" % (kind, type(e).__name__), "ensemble model: %s" % str(e)[:150], cfg=cfg)
+    # a model whose parameter is a generator OBJECT (random_state=RandomState(s)): frame and array agree when each call
+    # gets an equivalent model, and the model the caller passed is not modified (generator not advanced, not fitted)
+    if case["sub"] % 4 == 0 and X.shape[0] <= 150:
+        try:
+            from sklearn.tree import DecisionTreeRegressor as _DT
+            def mkrs():
+                return _DT(max_depth=3, splitter="random", random_state=numpy.random.RandomState(case["sub"] % 97))
+            ma, mb = mkrs(), mkrs()
+            st0 = ma.random_state.get_state()[1].copy()
+            numpy.random.seed(seed)
+            ra = non_linear_correlations(df, ma, draws=min(draws, 2))
+            numpy.random.seed(seed)
+            rb = non_linear_correlations(Xk.copy() if colkind == "float64" else df.to_numpy(dtype=float), mb,
+                                         draws=min(draws, 2))
+            ctx.hit("nlc.model_with_generator_object")
+            if not numpy.array_equal(ma.random_state.get_state()[1], st0) or hasattr(ma, "tree_"):
+                ctx.violation(K + "model-argument-modified", "the model passed by the caller was modified (its "
+                              "RandomState advanced: %s, fitted: %s)" % (
+                                  not numpy.array_equal(ma.random_state.get_state()[1], st0), hasattr(ma, "tree_")),
+                              cfg=cfg)
+            elif kind != "integers" and not numpy.allclose(numpy.asarray(ra), numpy.asarray(rb), rtol=0, atol=1e-9):
+                # (not on the tie-heavy integer tables: see the frame-vs-array clause above)
+                ctx.violation(K + "frame-differs-from-array/model-with-generator-object", "equivalent models (same "
+                              "RandomState seed) give different matrices for the frame and for its array", cfg=cfg)
+        except Exception as e:
+            ctx.violation(K + "raised/%s/%s" % (kind, type(e).__name__), "model with a generator object: %s" % (
+                str(e)[:150]), cfg=cfg)
     # the same array object refilled in place between two calls
     try:
         other = make_table(numpy.random.RandomState(case["sub"] % 997 + 1), kind)
@@ -271,6 +298,34 @@ def run_r2(case, ctx):
         ctx.violation("C18/r2/unknown-name-accepted", "an unknown function name was accepted")
     except (TypeError, ValueError, KeyError):
         pass
+    # a pair that shares state (a standardiser learnt on the targets by tr, applied to the predictions by inv_tr):
+    # r2_score(f(y), g(p)) evaluates f(y) first, then g(p)
+    if not multi:
+        class Standardiser:
+            def fit_transform(self, a):
+                self.m_, self.s_ = float(numpy.mean(a)), float(numpy.std(a))
+                return (a - self.m_) / self.s_
+
+            def transform(self, a):
+                return (a - self.m_) / self.s_
+
+        for used_before in (False, True):
+            sc, ref_sc = Standardiser(), Standardiser()
+            if used_before:
+                sc.fit_transform(y * 50 + 7)
+                ref_sc.fit_transform(y * 50 + 7)
+            try:
+                got = r2_score_comparable(y, p, tr=sc.fit_transform, inv_tr=sc.transform)
+            except Exception as e:
+                ctx.violation("C18/r2/raised/%s/stateful-pair" % type(e).__name__, "tr=scaler.fit_transform, "
+                              "inv_tr=scaler.transform: %s" % str(e)[:120], n=n, used_before=used_before)
+                continue
+            ctx.hit("r2.stateful_pair")
+            exp = r2_score(ref_sc.fit_transform(y), ref_sc.transform(p))
+            if not numpy.allclose(got, exp, rtol=1e-12, atol=1e-12):
+                ctx.violation("C18/r2/differs-from-r2_score/stateful-pair", "tr learns a scaling on the targets that "
+                              "inv_tr applies to the predictions: got %r, r2_score(f(y), g(p)) = %r" % (got, exp),
+                              n=n, used_before=used_before)
     ctx.check(numpy.array_equal(y, yk) and numpy.array_equal(p, pk), "C18/r2/input-modified", "inputs modified")
     ctx.cls("r2")
 
